@@ -72,6 +72,10 @@ def run(ctx):
 def r9(ctx, lib):
     rule = 'C20.R9'
     b = ctx.need_body(rule, 'dedupe::PartitionedFileGroup::dedupe_script')
+    if b is not None:
+        # the loop over the dropped files may be written as `into_iter().filter_map(|f| ..).collect()`: the closure body is looked at where the loop would stand
+        from ..desugar import desugared
+        b = desugared(lib, b, adaptors=True)
     if b is None:
         return
     from .common import bypass_decisions
